@@ -46,6 +46,7 @@ def judge(ctx, line, st0, A, after, what, stats):
 
 
 def run(ctx):
+    gen.INTEGRAL[0] = True          # real-typed weights are integer-valued here: how fractional weights are rounded is C08's subject
     ctx.trusted = ['Coq 8.16.1 kernel; axioms: the standard library\'s real-number axioms, as printed below',
                    'correspondence K-UPD-W (update_affinity alone and inside the composed sweep) and K-GRAPH vs the extracted float model, bit for bit',
                    'not verified: binary64 rounding (oracle tolerance 1e-9 relative)']
